@@ -19,6 +19,11 @@ structure St where
   sigs : List Sig := []
   /-- rows read by `mcsv`, and for each row the flat index of the sketch it describes -/
   csv : Option (List Record × List Nat) := none
+  /-- the manifest `hnew` saw -/
+  orig : List Record := []
+  /-- the collection of the history: is it inside a `LinearIndex`, and its current rows, each with
+      its position in `orig` -/
+  hist : Option (Bool × List (Nat × Record)) := none
 
 def seed0 : Nat := 1000
 
@@ -91,8 +96,12 @@ def rowsSpec (sel : Selection) (orig : List Record) : String :=
   if pos.isEmpty then "-" else
   ";".intercalate (pos.map (fun p => rowString (toString p) (orig[p]!)))
 
-/-- md5 is not observed by this property; names are always present in its cases -/
-def md5of (_ : Sketch) : Select.Bytes := []
+/-- md5 is not printed by this property (names are always present in its cases); record equality
+    (`hisect`) looks at it: the stand-in is the text `md5sum` digests - the decimal ksize followed by
+    the decimal hashes, nothing in between - so two sketches get equal stand-ins iff the crate feeds
+    md5 the same bytes -/
+def md5of (s : Sketch) : Select.Bytes :=
+  (toString s.ksize ++ String.join (s.mins.map toString)).toUTF8.toList
 
 def allRows (st : St) : List Record :=
   match st.csv with
@@ -135,6 +144,195 @@ def showRead (l : List Record) : String :=
     hex r.moltype, toString r.num, toString r.scaled, (if r.withAbundance then "1" else "0"),
     toString r.nHashes]))
 
+/-! ### `SigStore` in every state (`st` / `stget`)
+
+`Select.Store` is the model of the store; what a storage hands back went through the signature's
+JSON form: one sketch type, `num` dropped when `max_hash ≠ 0` (`stored`; JSON is property C06's). -/
+
+def stored (s : Sketch) : Sketch :=
+  { s with container := .vec, num := if s.maxHash != 0 then 0 else s.num }
+def storedSig (sg : Sig) : Sig := { sg with sketches := sg.sketches.map stored }
+
+/-- the store a route builds: `.error` = the answer of the line (the store never came to be) -/
+def storeOf (st : St) (route : String) (i : Nat) : Except String Store :=
+  if route == "cfd" || route == "cfr" || route == "lin" then
+    match collOf st with
+    | none => .error "PANIC"
+    | some c =>
+      let pre : Except String Unit :=
+        if route == "lin" then
+          match collectionSetCheck c.manifest with
+          | .error e => .error ("err " ++ errName e)
+          | .ok () =>
+            match c.sigForDataset 0 with
+            | some (.ok _) => .ok ()
+            | _ => .error "PANIC"
+        else .ok ()
+      match pre with
+      | .error e => .error e
+      | .ok () =>
+        match c.manifest[i]? with
+        | none => .error "PANIC"
+        | some r =>
+          match c.sigFromRecord r with
+          | none => .error "PANIC"
+          | some (.error e) => .error ("err " ++ errName e)
+          | some (.ok sg) => .ok { data := some sg, backing := (loadSig c.storage r.internalLocation).map storedSig }
+  else
+    match st.sigs[i]? with
+    | none => .error "PANIC"
+    | some sg =>
+      if route == "from" then .ok { data := some sg, backing := none }
+      else if route == "nws" || route == "lmem" then .ok { data := some sg, backing := some (storedSig sg) }
+      else if route == "lfs" || route == "lzip" then .ok { data := some (storedSig sg), backing := some (storedSig sg) }
+      else if route == "bmem" || route == "bfs" || route == "bzip" then .ok { data := none, backing := some (storedSig sg) }
+      else if route == "dsi" || route == "def" then .ok { data := none, backing := none }
+      else .error "bad-op"
+
+/-- the letters of a program, run on the model store (`retry`: a refused select is answered by a
+    read and a second select) -/
+def runProg (sel : Selection) (retry : Bool) : List Char → Store → String
+  | [], s =>
+    (match s.read with
+     | some (sg, _) => "ok " ++ descrList sg.sketches
+     | none => "err ReadDataError")
+  | c :: rest, s =>
+    if c == 'r' then
+      runProg sel retry rest (match s.read with | some (_, s') => s' | none => s)
+    else if c == 'k' || c == 'K' then runProg sel retry rest s
+    else if c == 's' || c == 'e' then
+      let x : Selection := if c == 's' then sel else {}
+      match s.select x with
+      | .ok s' => runProg sel retry rest s'
+      | .error e =>
+        if !retry then "err " ++ errName e
+        else
+          match s.read with
+          | none => "err ReadDataError"
+          | some (_, s1) =>
+            match s1.select x with
+            | .ok s2 => runProg sel retry rest s2
+            | .error e => "err " ++ errName e
+    else "bad-op"
+
+/-- what the property demands of `stget`: the caller holds exactly the sketches of the stored
+    signature that satisfy the request, each delivered at the requested scaled value.  Selecting
+    twice with a scaled request needs the requested value to survive the conversion to a ceiling and
+    back (C14, every value ≤ 2^31): nothing is said beyond. -/
+def stgetSpec (st : St) (route : String) (i : Nat) (prog : List Char) (sel : Selection) : String :=
+  let nsel := (prog.filter (· == 's')).length
+  let base : Option (List Sketch) :=
+    if route == "cfd" || route == "cfr" || route == "lin" then
+      match (described st)[i]? with
+      | some (some (_, s)) => some [s]
+      | _ => none
+    else if route == "dsi" || route == "def" then none
+    else
+      match st.sigs[i]? with
+      | none => none
+      | some sg =>
+        if route == "from" || route == "nws" || route == "lmem" then some sg.sketches
+        else some (sg.sketches.map stored)
+  match base with
+  | none => "-"
+  | some l =>
+    if nsel == 0 then "ok " ++ descrList l
+    else if nsel ≥ 2 && (match sel.scaled with | some sc => decide (sc > 2147483648) | none => false) then "-"
+    else "ok " ++ descrList (selectSpec sel l)
+
+/-! ### histories (`h…`) -/
+
+def histRows (cur : List (Nat × Record)) : String :=
+  if cur.isEmpty then "-" else ";".intercalate (cur.map (fun (p, r) => rowString (toString p) r))
+
+/-- rows of the current manifest whose described sketch satisfies the request -/
+def histSpec (st : St) (sel : Selection) (cur : List (Nat × Record)) : String :=
+  let d := described st
+  if cur.any (fun (p, _) => match d[p]? with | some (some _) => false | _ => true) then "-" else
+  histRows (cur.filter (fun (p, _) =>
+    match d[p]? with | some (some (_, s)) => satisfies sel s.described | _ => false))
+
+def stepHist (st : St) (op : String) (rest : List String) : St × Resp :=
+  if op == "hnew" then
+    match collOf st with
+    | none => ({ st with hist := none }, { model := "PANIC" })
+    | some c =>
+      let cur := c.manifest.zipIdx.map (fun (r, p) => (p, r))
+      ({ st with orig := c.manifest, hist := some (false, cur) }, { model := histRows cur })
+  else
+  match st.hist with
+  | none => (st, { model := "none" })
+  | some (isLin, cur) =>
+    let recs := cur.map (·.2)
+    if op == "hsel" || op == "hmsel" then
+      let sel := parseSel rest
+      if recs.any (rowPanics sel) then
+        ((if op == "hsel" then { st with hist := none } else st), { model := "PANIC" })
+      else
+        let cur' := cur.filter (fun (_, r) => rowValid sel r)
+        if op == "hmsel" then (st, { model := histRows cur', spec := histSpec st sel cur })
+        else if isLin then
+          match collectionSetCheck (cur'.map (·.2)) with
+          | .error e => ({ st with hist := none }, { model := "err " ++ errName e })
+          | .ok () => ({ st with hist := some (isLin, cur') }, { model := histRows cur', spec := histSpec st sel cur })
+        else ({ st with hist := some (isLin, cur') }, { model := histRows cur', spec := histSpec st sel cur })
+    else if op == "hisect" then
+      match rest with
+      | [l] =>
+        let idx := natList l
+        if idx.any (fun q => (st.orig[q]?).isNone) then (st, { model := "PANIC" })
+        else if isLin then (st, { model := "bad-state" })
+        else
+          let other := idx.filterMap (fun q => st.orig[q]?)
+          let cur' := cur.filter (fun (_, r) => other.any (fun q => Manifest.recEq r q))
+          ({ st with hist := some (isLin, cur') }, { model := histRows cur' })
+      | _ => (st, { model := "bad-op" })
+    else if op == "hlin" then
+      if isLin then (st, { model := "bad-state" })
+      else
+        match collectionSetCheck recs with
+        | .error e => ({ st with hist := none }, { model := "err " ++ errName e })
+        | .ok () =>
+          if recs.isEmpty then (st, { model := "empty" })
+          else
+            match collOf st with
+            | none => ({ st with hist := none }, { model := "PANIC" })
+            | some c =>
+              match ({ c with manifest := recs } : Collection).sigForDataset 0 with
+              | some (.ok _) => ({ st with hist := some (true, cur) }, { model := "ok " ++ toString recs.length })
+              | _ => ({ st with hist := none }, { model := "PANIC" })
+    else if op == "hcoll" then
+      if !isLin then (st, { model := "bad-state" })
+      else ({ st with hist := some (false, cur) }, { model := "ok " ++ toString recs.length })
+    else if op == "hget" then
+      match rest with
+      | j :: selw =>
+        let sel := parseSel selw
+        let j := j.toNat!
+        match collOf st with
+        | none => (st, { model := "PANIC" })
+        | some c =>
+          let c' : Collection := { c with manifest := recs }
+          let model :=
+            match c'.sigForDataset j, recs[j]? with
+            | some (.ok sg), some r =>
+              (match sigStoreSelect sel sg with
+               | .ok sg' => bytesString r.internalLocation ++ "=" ++ descrList sg'.sketches
+               | .error e => "err " ++ errName e)
+            | some (.error e), _ => "err " ++ errName e
+            | _, _ => "PANIC"
+          let spec :=
+            match cur[j]? with
+            | some (p, _) =>
+              (match (described st)[p]? with
+               | some (some (i, s)) =>
+                 toString i ++ "=" ++ (if satisfies sel s.described then descr (deliver sel s) else "-")
+               | _ => "-")
+            | none => "-"
+          (st, { model := model, spec := spec })
+      | _ => (st, { model := "bad-op" })
+    else (st, { model := "bad-op" })
+
 def stepC11 (st : St) (ws : List String) : St × Resp :=
   match ws with
   | "case" :: _ => ({}, { model := "ok" })
@@ -155,7 +353,19 @@ def stepC11 (st : St) (ws : List String) : St × Resp :=
      | some rows => ({ st with csv := some (rows, natList map) }, { model := showRead rows })
      | none => (st, { model := "err CsvError" }))
   | op :: rest =>
-    if op == "ssel" || op == "stsel" then
+    if op == "st" || op == "stget" then
+      match rest with
+      | route :: i :: prog :: selw =>
+        let sel := parseSel selw
+        let retry := op == "stget"
+        let model := match storeOf st route i.toNat! with
+          | .error e => e
+          | .ok s => runProg sel retry prog.toList s
+        (st, { model := model,
+               spec := if retry then stgetSpec st route i.toNat! prog.toList sel else "-" })
+      | _ => (st, { model := "bad-op" })
+    else if op.startsWith "h" then stepHist st op rest
+    else if op == "ssel" || op == "stsel" then
       match rest with
       | i :: selw =>
         let sel := parseSel selw
